@@ -220,6 +220,12 @@ impl<'tcx> Dumper<'tcx> {
                         esc(&tys),
                         self.scalar_int_json(leaf, ty)
                     )
+                } else if let Some(bytes) = ct.try_to_value().and_then(|v| v.try_to_raw_bytes(self.tcx)) {
+                    // string patterns of a `match` (`"&&" => ..`) are type-level constants with a byte valtree
+                    match std::str::from_utf8(bytes) {
+                        Ok(st) => format!("{{\"k\":\"val\",\"ty\":{},\"v\":{{\"str\":{}}}}}", esc(&tys), esc(st)),
+                        Err(_) => format!("{{\"k\":\"other\",\"ty\":{}}}", esc(&tys)),
+                    }
                 } else {
                     format!("{{\"k\":\"other\",\"ty\":{}}}", esc(&tys))
                 }
